@@ -12,7 +12,7 @@ import numpy as np
 from harness import common, refmetrics
 
 COQ_FILES = ["proofs/C09Proofs.v"]
-SENTINELS = {"pynndescent/distances.py": ["squared_euclidean", "alternative_cosine", "alternative_dot", "alternative_hellinger",
+SENTINELS = {"pynndescent/pynndescent_.py": ["NNDescent.neighbor_graph"], "pynndescent/distances.py": ["squared_euclidean", "alternative_cosine", "alternative_dot", "alternative_hellinger",
                                           "alternative_jaccard", "correct_alternative_cosine", "correct_alternative_hellinger",
                                           "correct_alternative_jaccard", "true_angular_from_alt_cosine", "cosine", "dot", "hellinger",
                                           "jaccard", "euclidean", "true_angular"],
@@ -245,6 +245,64 @@ def sweep(ctx, stride_log2):
     ctx.stream("correction-sweep", stride=stride, exhaustive=(stride == 1), per_function=res)
 
 
+def index_readout(ctx, nbuilds):
+    """the inverse transform as the index applies it: reading neighbor_graph corrects a COPY of the stored surrogate values —
+    every read returns the same corrected distances, and the stored surrogates (which prepare/update/query keep comparing)
+    are left as they are"""
+    import warnings
+    import scipy.sparse as sps
+    from pynndescent import NNDescent
+    from harness import refmetrics
+    rng = ctx.rng
+    bad = 0
+    done = 0
+    for b in range(nbuilds):
+        rs = np.random.RandomState(rng.randrange(10 ** 6))
+        metric = ["euclidean", "cosine", "hellinger", "euclidean", "cosine", "correlation", "dot"][b % 7]
+        sparse = (b % 2 == 1) and metric in ("euclidean", "cosine", "hellinger")
+        X = rs.uniform(0.1, 3.0, size=(rng.choice([60, 150]), 6)).astype(np.float32)
+        data = sps.csr_matrix(np.where(rs.uniform(size=X.shape) < 0.7, X, 0).astype(np.float32) + np.eye(X.shape[0], 6, dtype=np.float32)) if sparse else X
+        ctx.crumb(dict(stream="index-readout", metric=metric, sparse=sparse, n=int(X.shape[0])))
+        with warnings.catch_warnings():
+            warnings.simplefilter("ignore")
+            idx = NNDescent(data, metric=metric, n_neighbors=6, random_state=rng.randrange(1000), n_jobs=1)
+            stored = idx._neighbor_graph[1].copy()
+            i1, d1 = idx.neighbor_graph
+            d1 = d1.copy()
+            stored_after = idx._neighbor_graph[1].copy()
+            i2, d2 = idx.neighbor_graph
+            idx.prepare()
+            i3, d3 = idx.neighbor_graph
+        done += 1
+        ctx.nontrivial.add(("readout", b))
+        why = None
+        if not np.array_equal(stored, stored_after, equal_nan=True):
+            why = "reading neighbor_graph changed the stored surrogate distances (%d entries)" % int((stored != stored_after).sum())
+        elif not np.array_equal(d1, d2, equal_nan=True):
+            why = "two consecutive reads of neighbor_graph return different distances (%d entries differ)" % int((d1 != d2).sum())
+        elif not np.array_equal(d1, d3, equal_nan=True):
+            why = "neighbor_graph read after prepare() differs from the read before (%d entries)" % int((d1 != d3).sum())
+        else:
+            D = data.toarray() if sparse else X
+            ref = refmetrics.REPORTED[metric]
+            for r in range(0, D.shape[0], 7):
+                for j, dv in zip(i1[r], d1[r]):
+                    if j >= 0:
+                        t = ref(D[r].astype(np.float64), D[int(j)].astype(np.float64))
+                        if abs(float(dv) - t) > 5e-3 * max(1.0, abs(t)):
+                            why = "neighbor_graph[%d] lists %d at %r; the documented %s distance is %r" % (r, j, float(dv), metric, t)
+                            break
+                if why:
+                    break
+        if why:
+            bad += 1
+            if bad <= 2:
+                ctx.violation("index-readout", "%s%s index: %s" % ("CSR " if sparse else "", metric, why),
+                              dict(metric=metric, sparse=sparse, n=int(X.shape[0]), why=why), True)
+    ctx.count(done)
+    ctx.stream("index-readout", builds=done, failures=bad)
+
+
 def run(ctx):
     ctx.trusted = ["Coq 8.16.1 kernel", "Coq.Reals axioms (ClassicalDedekindReals.sig_forall_dec, sig_not_dec, functional_extensionality_dep, Classical_Prop.classic)",
                    "harness: float64 numpy/libm evaluations of exp2, sqrt, arccos as the reference for the compiled float32 kernels"]
@@ -265,6 +323,7 @@ def run(ctx):
     ctx.notes["sentinels"] = cur
     ctx.build(COQ_FILES)
     pairs(ctx, ctx.budget(14, 40))
-    sweep(ctx, ctx.budget(10, 0))
+    sweep(ctx, 0 if ctx.thorough else (8 if changed else 10))
+    index_readout(ctx, ctx.budget(7, 28))
     if not changed and unknown:
         common.update_sentinels(cur)
